@@ -37,6 +37,22 @@ def main():
         res["ok"] = True
     except BaseException as exc:  # noqa: report everything to the driver
         res = {"ok": False, "error": "%s: %s" % (type(exc).__name__, exc), "traceback": traceback.format_exc()}
+        # An exception that escapes a check's workload from INSIDE the library (innermost frame in the xdeps overlay, Python
+        # or Cython source) is a verdict, not a harness failure: the workloads only issue operations that are legal and do
+        # not raise on a tree where the property holds (expected refusals are caught where they are expected).
+        try:
+            last = traceback.extract_tb(exc.__traceback__)[-1]
+            fn = last.filename.replace(os.sep, "/")
+            inside = isinstance(exc, Exception) and not isinstance(exc, (MemoryError, RecursionError)) and \
+                ("/xdeps/" in fn or fn.startswith("xdeps/")) and "/verif/" not in fn and not spec.get("replay")
+        except Exception:
+            inside = False
+        if inside:
+            res = {"ok": True, "evaluations": 0, "digests": [], "samples": [], "counters": {"workload_aborted_by_library_exception": 1},
+                   "known": [], "violations": [{
+                       "what": "%s a legal operation of the workload raised %s: %s inside the library (%s:%s %s); the shard stopped there" % (
+                           check_id, type(exc).__name__, str(exc)[:200], fn, last.lineno, last.name),
+                       "traceback": traceback.format_exc()[-3000:], "shard": {k: v for k, v in spec.items() if k != "replay"}}]}
     res["wall_s"] = time.time() - t0
     tmp = out_path + ".tmp"
     with open(tmp, "w") as fh:
